@@ -300,6 +300,7 @@ def run(program, ctx):
     c06.rule_broadcast(program, ctx, prop=P, rid="C05.broadcast")
     rule_coverage(program, ctx)
     c13.rule_liveness(program, ctx, prop=P, rid="C05.liveness")
+    c13.rule_replace(program, ctx, prop=P, rid="C05.replace")
     ctx.not_decided += [
         "exactly-once delivery and absence of loss under all interleavings of tasks and connections (schedule exploration is another family)",
         "check_event's set-of-booleans logic being equivalent to the stored predicates for every event (e.g. delegated authors)",
@@ -325,4 +326,13 @@ MUTANTS = [
 EQUIVS = [
     E("c05-eq-comprehension", BASE, "            for client in self.clients.values():\n                for sub in client.values():\n                    self._notify_sub_tasks.append(\n                        asyncio.create_task(sub.notify(event))\n                    )\n                    counter[\"count\"] += 1\n",
       "            self._notify_sub_tasks.extend(\n                asyncio.create_task(sub.notify(event))\n                for client in self.clients.values()\n                for sub in client.values()\n            )\n            counter[\"count\"] += len(self._notify_sub_tasks)\n"),
+]
+
+# functions whose syntactic mutants are used for the thorough tier's sensitivity figure (sa/automut.py)
+ANCHORS = [
+    "nostr_relay.storage.base:BaseStorage.notify_all_connected",
+    "nostr_relay.storage.base:BaseSubscription.notify",
+    "nostr_relay.storage.base:BaseSubscription.check_event",
+    "nostr_relay.storage.base:BaseStorage.subscribe",
+    "nostr_relay.storage.base:BaseStorage.unsubscribe",
 ]
